@@ -26,6 +26,8 @@ pub struct Pattern {
     source: String,
     /// The parsed regex HIR for this pattern
     hir: Hir,
+    /// Whether the pattern matches UTF-8 codepoints (true) or bytes (false)
+    unicode: bool,
 }
 
 impl Pattern {
@@ -57,6 +59,7 @@ impl Pattern {
             is_literal,
             source,
             hir,
+            unicode,
         })
     }
 
@@ -73,32 +76,32 @@ impl Pattern {
             is_literal: true,
             source: source.token().to_string(),
             hir,
+            unicode: source.unicode(),
         })
     }
 
     /// Get the default priority for a pattern
     pub fn priority(&self) -> usize {
-        Self::complexity(&self.hir)
+        Self::complexity(&self.hir, self.unicode)
     }
 
-    fn complexity(hir: &Hir) -> usize {
+    fn complexity(hir: &Hir, unicode: bool) -> usize {
+        let complexity = |hir| Self::complexity(hir, unicode);
         match hir.kind() {
             HirKind::Empty => 0,
+            // A byte pattern counts bytes, even when they happen to be valid UTF-8
             HirKind::Literal(lit) => match std::str::from_utf8(&lit.0) {
-                Ok(s) => 2 * s.chars().count(),
-                Err(_) => 2 * lit.0.len(),
+                Ok(s) if unicode => 2 * s.chars().count(),
+                _ => 2 * lit.0.len(),
             },
             HirKind::Class(_) => 2,
             HirKind::Look(_) => 0,
             HirKind::Repetition(repetition) => {
-                (repetition.min as usize).saturating_mul(Self::complexity(&repetition.sub))
+                (repetition.min as usize).saturating_mul(complexity(&repetition.sub))
             }
-            HirKind::Capture(capture) => Self::complexity(&capture.sub),
-            HirKind::Concat(hirs) => hirs
-                .iter()
-                .map(Self::complexity)
-                .fold(0, usize::saturating_add),
-            HirKind::Alternation(hirs) => hirs.iter().map(Self::complexity).min().unwrap_or(0),
+            HirKind::Capture(capture) => complexity(&capture.sub),
+            HirKind::Concat(hirs) => hirs.iter().map(&complexity).fold(0, usize::saturating_add),
+            HirKind::Alternation(hirs) => hirs.iter().map(complexity).min().unwrap_or(0),
         }
     }
 
